@@ -38,7 +38,7 @@ ASSUMPTIONS = [
     "mid-range clauses: the exact long-double reference is evaluated on all oscillators when oscillators x samples <= 1.2e6 (thorough 4e6), "
     "otherwise on a sample (first / last rows, rows -1, 0, 1 modulo 2^5..2^12, hash-chosen rows); the other rows are covered by the exact "
     "differential relations between entry points, the third-series identity, the pseudo relations and S_d >= raw S_d",
-    "mid-range clauses, quick tier: record length <= 130 000 (array functions), 80 000 (energy), 40 000 (intensities), 30 000 x sub-steps "
+    "mid-range clauses, quick tier: record length <= 120 000 (array functions), 70 000 (energy), 30 000 (intensities), 30 000 x sub-steps "
     "(object); products <= 1e7 (array), 8e6 (energy), 1.2e7 (object, samples x periods x sub-steps): the library's time loop is a Python loop "
     "(~12 us per sample, ~0.11 us per cell), a single call beyond that exceeds the per-case budget; the thorough tier goes to 1e6 / 6e5 / 3e5 / "
     "3e5 samples and 4e7 / 3e7 / 4e7 cells",
@@ -717,8 +717,8 @@ def _array_case_list(tier):
         cases.append(c)
 
     # (a) record length, a handful of oscillators on both sides of 6 dt
-    hi = 1000000 if th else 130000
-    sizes = sorted(set(gen.ladder(2000, hi, 22 if th else 9, tg + "c03:len")) | set(gen.mined_sizes(2000, hi, 4 if th else 2, tg + "c03:len")))
+    hi = 1000000 if th else 120000
+    sizes = sorted(set(gen.ladder(2000, hi, 22 if th else 8, tg + "c03:len")) | set(gen.mined_sizes(2000, hi, 4 if th else 1, tg + "c03:len")))
     for i, n in enumerate(sizes):
         if 3 * n * _est_iter_s(6) <= 2.0:
             add("len", n, 5, i, ["series", "pseudo", "true"], template=True)
@@ -726,7 +726,7 @@ def _array_case_list(tier):
             for f in ("series", "pseudo", "true"):
                 add("len", n, 5, i, [f], template=True)
     # (b) number of oscillators, short record; with and without the leading 0
-    for i, p in enumerate(gen.size_ladder(1, 9000 if th else 5000, 30 if th else 14, tg + "c03:per", mined_limit=10 if th else 6)):
+    for i, p in enumerate(gen.size_ladder(1, 9000 if th else 4000, 30 if th else 13, tg + "c03:per", mined_limit=10 if th else 5)):
         n = 200 + _hh(tg, "pern", i) % 500
         for lead0 in (False, True):
             add("periods", n, p, 2 * i + int(lead0), ["series", "pseudo", "true"], lead0=lead0, xi=_pick([0.0] + MID_XIS, tg, "pxi", i, lead0),
@@ -755,8 +755,8 @@ def _array_enum(tier, shard, nshards):
 
 
 @enum_clause(CLAUSES, "mid-range", _array_enum, quick_shards=4,
-             rule="response_series / pseudo_response_spectra / true_response_spectra on (a) record-length ladder 2000..130000 samples "
-                  "(thorough 1e6) with five oscillators T/dt ~ 0.45, 3.3, 7.3, 31, 117, (b) 1..5000 (9000) oscillators log-spaced over "
+             rule="response_series / pseudo_response_spectra / true_response_spectra on (a) record-length ladder 2000..120000 samples "
+                  "(thorough 1e6) with five oscillators T/dt ~ 0.45, 3.3, 7.3, 31, 117, (b) 1..4000 (9000) oscillators log-spaced over "
                   "[0.5..8, 60..290] dt on 200-700 samples, with and without leading 0, (c) products oscillators x samples 1e5..1e7 (4e7); "
                   "plus sizes mined from integer literals of the source; burst records with the peaks of different rows at the start, "
                   "middle and end, spike first/last/mid/none, periods as ndarray/list/tuple",
@@ -956,8 +956,8 @@ def _object_case_list(tier):
         pairs = gen.product_pairs(1e5 / k, (4e7 if th else 1.2e7) / k, 7 if th else 3, (4, 3000), (200, 100000 if th else 30000), tg + "c03:otri%d" % k)
         for i, (p, n) in enumerate(pairs):
             add("product", n, p, 3 * i + j, k, rlo=[0.47, 3.1, 0.61][i % 3])
-    sz = gen.ladder(1500, 40000 if th else 12000, 8 if th else 4, tg + "c03:ohn")
-    ps = gen.ladder(20, 1500 if th else 400, 8 if th else 4, tg + "c03:ohp")[::-1]
+    sz = gen.ladder(1500, 40000 if th else 9000, 8 if th else 3, tg + "c03:ohn")
+    ps = gen.ladder(20, 1500 if th else 300, 8 if th else 3, tg + "c03:ohp")[::-1]
     for i, (n, p) in enumerate(zip(sz, ps)):
         add("history", n, p, i, [8, 2][i % 2], rlo=[0.47, 3.1][i % 2], p2=max(3, int(p * 0.6) + 1), xi=0.05)
     cases.sort(key=lambda c: -(4 if c["kind"] == "history" else 2) * c["n"] * c["min_dt_ratio"] * _est_iter_s(c["p"]))
@@ -976,7 +976,7 @@ def _read_spectra(ctx, asig):
              rule="AccSignal spectra (constructor + lazy read, gen_response_spectrum with periods / xi / min_dt_ratio given or not, "
                   "generate_response_spectrum after a cached read) on (a) record-length ladder 2000..30000 (thorough 3e5) x 6 periods, "
                   "(b) 1..5000 (9000) ascending periods on 120-420 samples, (c) products samples x periods x sub-steps 1e5..1.2e7 (4e7) for "
-                  "min_dt_ratio 2/4/8, (d) histories at 1500..12000 samples x 20..400 periods: lazy read, new min_dt_ratio without "
+                  "min_dt_ratio 2/4/8, (d) histories at 1500..9000 samples x 20..300 periods: lazy read, new min_dt_ratio without "
                   "periods, new (shorter) period list, new record - every reading checked; smallest period 0.47..12.9 dt so that "
                   "either term of the step rule decides; with and without leading 0",
              oracle="reference model: as object-api with the exact long-double series on the sampled rows (first/last, power-of-two "
@@ -1113,7 +1113,7 @@ def _energy_case_list(tier):
         c.update(kw)
         cases.append(c)
 
-    for i, n in enumerate(gen.size_ladder(2000, 600000 if th else 80000, 18 if th else 7, tg + "c03:elen", mined_limit=2 if th else 1)):
+    for i, n in enumerate(gen.size_ladder(2000, 600000 if th else 70000, 18 if th else 7, tg + "c03:elen", mined_limit=2 if th else 1)):
         if 4 * n * _est_iter_s(6) <= 2.0:
             add("len", n, 5, i, ["end", "series", "uke"], template=True)
         else:
@@ -1131,7 +1131,7 @@ def _energy_case_list(tier):
             add("product", n, p, i, ["end", "series"], **kw)
             add("product", n, p, i, ["uke"], **kw)
     # spectrum intensities: default period grids over a record-length ladder; custom grids (step 0.01 s) over a period-count ladder
-    for i, n in enumerate(gen.size_ladder(2000, 300000 if th else 40000, 12 if th else 5, tg + "c03:silen", mined_limit=1)):
+    for i, n in enumerate(gen.size_ladder(2000, 300000 if th else 30000, 12 if th else 4, tg + "c03:silen", mined_limit=1)):
         add("si", n, 0, i, ["asi", "vsi"], dt=_pick([0.01, 0.005, 0.02], tg, "sidt", i), xi=_pick([0.05, 0.0, 0.2], tg, "sixi", i))
     for i, p in enumerate(gen.size_ladder(2, 6000 if th else 3000, 18 if th else 9, tg + "c03:siper", mined_limit=3)):
         add("si", 150 + _hh(tg, "sipn", i) % 300, p, i, ["asi", "vsi"], dt=_pick([0.01, 0.005, 0.02], tg, "sipdt", i),
@@ -1145,9 +1145,9 @@ def _energy_enum(tier, shard, nshards):
 
 
 @enum_clause(CLAUSES, "mid-range-energy", _energy_enum, quick_shards=4,
-             rule="calc_input_energy_spectrum (end value and series) / calc_resp_uke_spectrum on (a) record-length ladder 2000..80000 "
+             rule="calc_input_energy_spectrum (end value and series) / calc_resp_uke_spectrum on (a) record-length ladder 2000..70000 "
                   "(thorough 6e5) x 5 periods, (b) 1..5000 (9000) periods on 150-450 samples, (c) products periods x samples 1e5..8e6 (3e7); "
-                  "periods explicit or from the signal; calc_asi / calc_vsi on default grids x record-length ladder 2000..40000 (3e5) and on "
+                  "periods explicit or from the signal; calc_asi / calc_vsi on default grids x record-length ladder 2000..30000 (3e5) and on "
                   "custom grids of 2..3000 (6000) periods; burst records as in mid-range",
              oracle="reference model: every row and every sample of the input-energy series == running sum a_i v_i dt, end value == its "
                     "total, kinetic-energy spectrum == sum |delta(v^2/2)| over the library's own velocity series in long double "
@@ -1202,7 +1202,7 @@ def _option_case_list(tier):
                     for series in (None, False, True, "uke"):
                         i += 1
                         cases.append({"what": "energy", "periods_arg": per, "xi": xi, "series": series, "i": i,
-                                      "n": [230, 2600][size] + _hh(tg, "optn", i) % 400, "p": [12, 140][size] + _hh(tg, "optp", i) % 30})
+                                      "n": [230, 1500][size] + _hh(tg, "optn", i) % 400, "p": [12, 90][size] + _hh(tg, "optp", i) % 30})
             # intensities: xi (omitted | given) x periods (omitted | given)
             for xi in (None, 0.0, 0.2):
                 for per in ("default", "custom"):
@@ -1215,7 +1215,7 @@ def _option_case_list(tier):
                 for xi in (None, 0.0, 0.2):
                     for ratio in (None, 1, 2, 8):
                         i += 1
-                        if size == 1 and (_hh(tg, "optsel", i) % 2):
+                        if size == 1 and (_hh(tg, "optsel", i) % 3):
                             continue
                         cases.append({"what": "object", "periods_arg": per, "xi": xi, "min_dt_ratio": ratio, "i": i,
                                       "call": ["gen_response_spectrum", "generate_response_spectrum"][_hh(tg, "optcall", i) % 2],
@@ -1233,7 +1233,7 @@ def _option_enum(tier, shard, nshards):
 
 
 @enum_clause(CLAUSES, "mid-range-options", _option_enum, quick_shards=4,
-             rule="cross product of the optional arguments at two sizes (200-600 and 1300-3700 samples; 7-40 and 60-300 periods): "
+             rule="cross product of the optional arguments at two sizes (200-600 and 1300-3700 samples; 7-40 and 60-300 periods; the larger size for a hash-chosen third of the object combinations): "
                   "calc_input_energy_spectrum periods (attribute | explicit) x xi (omitted | 0 | 0.2) x series (omitted | False | True) and "
                   "calc_resp_uke_spectrum periods x xi; calc_asi / calc_vsi xi (omitted | 0 | 0.2) x periods (omitted | custom grid); "
                   "gen_response_spectrum / generate_response_spectrum periods (constructor list | constructor response_period_range | "
